@@ -20,7 +20,8 @@ secret absent, key-free messages unchanged, idempotence - on the real
 function over 35 keys x 4 spellings x 11 renderings x secrets x contexts.
 """
 from pyvc.api import (proof, bounded, load, model, fresh_str, pick, assume,
-                      check, implies, conj, disj, neg, in_lang, re_lang, rng)
+                      check, implies, conj, disj, neg, in_lang, re_lang, rng,
+                      regex_hook)
 
 SU = 'oslo_utils/strutils.py'
 
@@ -95,6 +96,8 @@ def substitution_order_for_one_key():
     fake_re = _NS()
     fake_re.sub = sub
     model(S, 're', fake_re)
+    # the same stand-in for the method spelling pattern.sub(template, text)
+    regex_hook(['sub'], lambda pat, name, args: sub(pat, args[0], args[1]))
     r = S.mask_password(message, secret)
     if not present:
         check('body/no-key-no-substitution', log == [])
